@@ -25,15 +25,18 @@ open MW.Model.Api MW.Lemmas.ApiSound MW.Lemmas.ApiSafe
     code breaks this theorem. -/
 theorem sites_match : siteTable = MW.Gen.Sites.table := by decide +kernel
 
-/-- the `Fn.*` constants used by `invoke` point at the functions they are named after -/
-theorem fnIndex_ok : fnIndex.all (fun p => ((progs[p.1]?).map (·.1)) == some p.2) = true := by decide +kernel
+/-- the position constants `Fn.*` used by `invoke` (generated from the source, MW.Gen.ApiFn) and the generated
+    site table list the same functions in the same order, and every hand-written skeleton is attached to a
+    position of that table -/
+theorem fnIndex_ok : Fn.keys = MW.Gen.Sites.table.map (·.1) ∧ Fn.keys.length = Fn.count ∧
+    bodies.all (fun p => decide (p.1 < Fn.count)) = true := by decide +kernel
 
-/-- every table position is defined: `invoke` of a table index never ends in `unknownFn` -/
-theorem progs_total (f : Nat) (h : f < 158) : (prog f).isSome = true := by
-  have hl : progs.length = 158 := by decide +kernel
+/-- every table position is defined: `invoke` of a table index never ends in `unknownFn` (a function of the
+    anchored files without a hand-written skeleton has the empty one – admissible exactly when it has no
+    site, which `sites_match` checks) -/
+theorem progs_total (f : Nat) (h : f < Fn.count) : (prog f).isSome = true := by
   unfold prog
-  have : f < progs.length := by omega
-  simp [this]
+  split <;> simp [h]
 
 /-- SOUNDNESS OF THE CHECKER (all programs, all skeletons): a skeleton the checker accepts from no
     assumptions never panics – for every initial state (= every argument tuple and every wallet / store /
@@ -85,7 +88,7 @@ theorem follower_total (O : Oracle) (n : Nat) (σ : State) (kind text : String) 
     run prog O n (.invoke Fn.proccessReceivedTx) σ ≠ .error (.panic kind text) ∧
     run prog O n (.invoke Fn.asyncImport) σ ≠ .error (.panic kind text) ∧
     run prog O n (.invoke Fn.asyncRemove) σ ≠ .error (.panic kind text) ∧
-    run prog O n (.invoke Fn.Start_wm) σ ≠ .error (.panic kind text) :=
+    run prog O n (.invoke Fn.Start_wallet) σ ≠ .error (.panic kind text) :=
   ⟨skeleton_safe _ _ _ _ closed_ok _ _ safe_handle O n σ kind text, skeleton_safe _ _ _ _ closed_ok _ _ safe_worker O n σ kind text,
    skeleton_safe _ _ _ _ closed_ok _ _ safe_processConnectedBlock O n σ kind text,
    skeleton_safe _ _ _ _ closed_ok _ _ safe_proccessReceivedTx O n σ kind text,
